@@ -294,7 +294,7 @@ package transform
 
 // device requests (deploy.resources.reservations.devices, gpus): count defaults to all iff neither count nor device_ids is set
 //@ func deviceRequestDefaults
-//@   except nilbox#2 : undischarged on the reference tree (engine limit or missing callee contract), not claimed
+//@   except nilbox@57d7ad#2 : undischarged on the reference tree (engine limit or missing callee contract), not claimed
 //@   nopanic[C01,C11]
 //@   ensures[C11] isMap(data) ==> err == nil && result == data
 //@   ensures[C11] !isMap(data) ==> err != nil
